@@ -2,7 +2,8 @@ import json, sys, glob
 import jsonschema
 jsonschema.validate(json.load(open('/verif/MANIFEST.json')), json.load(open('/root/.vp/MANIFEST.schema.json')))
 es = json.load(open('/root/.vp/EVIDENCE.schema.json'))
-for f in sorted(glob.glob('/verif/evidence/*.json')):
+for f in sorted(glob.glob('/verif/evidence/C??.json')) + sorted(glob.glob('/verif/evidence_extras/X??.json')):
+    # (*.scratch.json / *.replay.json are development leftovers, git-ignored)
     jsonschema.validate(json.load(open(f)), es)
     print('ok', f)
 print('manifest valid')
